@@ -170,3 +170,59 @@ Theorem C13_validate_accept_has_signature : forall T zq x64 virt inst ops,
                             match_sig T zq (mode_bit x64) (xs_sigs st) s = Some false).
 Proof. exact validate_accept_has_signature. Qed.
 Print Assumptions C13_validate_accept_has_signature.
+
+(* ---- the ISA database side, row by row (not only through instantiations): every database row of an instruction AsmJit has (expanded to one
+   operand kind per operand; vendored list corpus/C13/db_rows_x86.txt, the known-absent rows are listed separately) is CONTAINED in a signature
+   record of its instruction in the current tables: same operand count, all modes of the row, each operand's kind flags (and implicitness),
+   a fixed register only where the database fixes one *)
+From VerifGen Require Import X86DbRows.
+Theorem C13_signature_rows_present : forall row, In row x86_db_rows -> row_present x86_vtables row = true.
+Proof. exact (forallb_In _ (row_present x86_vtables) x86_db_rows x86_db_rows_present). Qed.
+Print Assumptions C13_signature_rows_present.
+
+(* ---- alias formatting (inst_id_to_string with InstStringifyOptions::kAliases, e.g. "cmov.b|nae|c"): every spelling of the formatted
+   text of an x86 instruction maps back to that instruction's id (instruction name or alias), for every id that carries a format *)
+Theorem C13_alias_formats_roundtrip_x86 : forall id, 1 <= id < nt_count x86_names ->
+  has_alias_format (nth (N.to_nat id) (nt_names x86_names) 0) = true ->
+  forall e, In e (expand_alias_format (formatted_name_of x86_names id)) -> x86_string_to_inst_id x86_names x86_aliases e = id.
+Proof. exact (alias_formats_roundtrip_all x86_names x86_aliases x86_alias_formats_roundtrip). Qed.
+Print Assumptions C13_alias_formats_roundtrip_x86.
+
+(* ... and conversely every alias table entry is a spelling of its target's format, except the listed ones (aliases that exist only in
+   the alias table: 'sal', 'wait' in the reference tree) *)
+Theorem C13_alias_table_from_formats_x86 : forall i, i < at_count x86_aliases ->
+  In i x86_aliases_without_format \/ alias_from_format x86_names x86_aliases i = true.
+Proof. exact (alias_table_from_formats x86_names x86_aliases x86_aliases_without_format x86_aliases_without_format_ok). Qed.
+Print Assumptions C13_alias_table_from_formats_x86.
+
+(* ---- bridge from the database rows to the validator, for ALL operand values: for a database row contained in the tables, the signature stage
+   of validate (match_sigs over the instruction's records, either variant of the operand-count rule) accepts EVERY list of translated operands
+   that fits the row's explicit operands kind by kind (op_fits: shares an operand-kind bit, register only where the row has one, base-only
+   address where the row demands it, the fixed register where the row fixes one) in every mode the row lists *)
+Theorem C13_db_row_signature_stage : forall row, In row x86_db_rows ->
+  forall zq mb ops iflags avx sidx scnt,
+  nth (N.to_nat (dr_inst row)) (vt_inst x86_vtables) (0, 0, 0, 0) = (iflags, avx, sidx, scnt) ->
+  test (dr_mode row) mb = true ->
+  fits_all (explicit_ops (dr_ops row)) ops = true ->
+  match_sigs x86_vtables zq mb ops (inst_sigs x86_vtables sidx scnt) false = E_Ok.
+Proof.
+  exact (fun row Hin zq mb ops iflags avx sidx scnt ROW M F =>
+    row_present_signature_stage x86_vtables zq mb row ops iflags avx sidx scnt x86_sigs_wf
+      (forallb_In _ (row_present x86_vtables) x86_db_rows x86_db_rows_present row Hin) ROW M F).
+Qed.
+Print Assumptions C13_db_row_signature_stage.
+
+(* its operand-fit premise is satisfiable for every row *)
+Example C13_db_row_signature_stage_premise : forall row, In row x86_db_rows ->
+  fits_all (explicit_ops (dr_ops row)) (map (fun d => (fst (fst d), snd (fst d))) (explicit_ops (dr_ops row))) = true.
+Proof. exact (forallb_In _ _ x86_db_rows x86_db_rows_fit_example). Qed.
+
+(* ---- converse direction (weak form): no signature record without a database origin. For every instruction and every signature record it
+   uses (position j), either (id, j) is on the generated exception list (14 records of cmps/movs/enqcmd/enqcmds/movdir64b in the reference
+   tree) or the record admits, operand by operand, some database row of that instruction that shares a mode with it *)
+Theorem C13_signature_records_have_db_origin : forall iid iflags avx sidx scnt, 1 <= iid < vt_count x86_vtables ->
+  nth (N.to_nat iid) (vt_inst x86_vtables) (0, 0, 0, 0) = (iflags, avx, sidx, scnt) ->
+  forall j s, nth_error (inst_sigs x86_vtables sidx scnt) j = Some s ->
+  pair_in (iid, N.of_nat j) x86_records_without_origin = true \/ sig_origin x86_vtables x86_db_rows iid s = true.
+Proof. exact (records_origin x86_vtables x86_db_rows x86_records_without_origin x86_records_have_origin). Qed.
+Print Assumptions C13_signature_records_have_db_origin.
